@@ -261,7 +261,12 @@ func check(rt *rapid.T, c *chains.Chain, p *chains.Cond, mode string, v variatio
 	}
 
 	// the dry run sends nothing
-	if dryErr != nil && !((c.Fin == "scan" || c.Fin == "rows") && errors.Is(dryErr, gorm.ErrDryRunModeUnsupported)) {
+	if plan.Refused {
+		// outcome of an operation gorm refuses: the same error in both runs, nothing sent in either
+		if !errors.Is(dryErr, gorm.ErrMissingWhereClause) {
+			fail("the real run refuses this operation (no conditions: ErrMissingWhereClause) and sends nothing, but the dry run reports %v and presents its statement as what would be sent", dryErr)
+		}
+	} else if dryErr != nil && !((c.Fin == "scan" || c.Fin == "rows") && errors.Is(dryErr, gorm.ErrDryRunModeUnsupported)) {
 		fail("the dry run failed: %v", dryErr)
 	}
 	for _, e := range dryLog {
@@ -284,8 +289,12 @@ func check(rt *rapid.T, c *chains.Chain, p *chains.Cond, mode string, v variatio
 	}
 	if len(dryLog) > 0 {
 		// a write may open and commit an empty implicit transaction, nothing else
-		if len(dryLog) != 2 || dryLog[0].Kind != recdrv.Begin || dryLog[1].Kind != recdrv.Commit {
-			fail("the dry write did more than open and commit one empty transaction")
+		closing := recdrv.Commit
+		if plan.Refused && !v.inTx {
+			closing = recdrv.Rollback // the refused operation ends its implicit transaction by rolling back
+		}
+		if len(dryLog) != 2 || dryLog[0].Kind != recdrv.Begin || dryLog[1].Kind != closing {
+			fail("the dry write did more than open and close one empty transaction")
 		}
 	}
 	if a.Rec.OpenTx() != 0 {
@@ -298,6 +307,12 @@ func check(rt *rapid.T, c *chains.Chain, p *chains.Cond, mode string, v variatio
 		fail("the handle returned by the batched dry run exposes a statement that is none of its batches: %q", exposed.sql)
 	}
 
+	if plan.Refused {
+		if !errors.Is(realTx.Error, gorm.ErrMissingWhereClause) || len(stmts) != 0 {
+			fail("an update/delete without conditions must be refused (ErrMissingWhereClause) and send nothing; the real run returned %v and sent %d statement(s)", realTx.Error, len(stmts))
+		}
+		return
+	}
 	// the real run sends exactly what the dry run showed
 	if err := realTx.Error; err != nil && !(c.MayNotFind() && errors.Is(err, gorm.ErrRecordNotFound)) {
 		fail("the real run failed: %v", err)
